@@ -107,7 +107,7 @@ def run(ctx, replay=None):
                 probe['steps'] = probe['steps'][:si + 1]
                 slot = s['args'][0] - 1
                 ac = probe['steps'][si]['post']['sets'][slot]['ac']
-                ac[0], ac[1] = ac[1] + 1, ac[0] - 1
+                ac[0] += 7   # no real accum can be off by 7 here: the sum of accums would change
                 break
         if probe:
             break
